@@ -10,6 +10,7 @@ DOC = {
                    'shortcuts in the statistics are guarded so that the header agrees with the replication filter (R3); the body passes the final ordering (R4 = C13.R1); group '
                    'lengths are consistent for all paths of an inode (R5 = C01.R6).',
     'rules': {
+        'C14.M': __import__('fcverif.rules.common', fromlist=['MANDATORY_TEXT']).MANDATORY_TEXT,
         'C14.R1': 'write_report: group_count/total/redundant/missing all derive from the `groups` parameter and config.group_filter(); the same `groups` feed ReportWriter::write',
         'C14.R2': 'write_as_text/fdupes/csv/json: count printed = g.files.len(); the listed paths iterate g.files completely (no skip/take/filter/step_by/rev)',
         'C14.R3': 'replica-count shortcuts are guarded by root_paths.is_empty() and !group_by_id (re-evaluates C06.R8)',
@@ -28,6 +29,8 @@ def run(ctx):
     r1(ctx)
     r2(ctx)
     r345(ctx)
+    from .common import run_mandatory
+    run_mandatory(ctx, 'C14')
 
 
 def r1(ctx):
